@@ -22,6 +22,42 @@ func (g *gen) loops(fn *ssa.Function) *loopInfo {
 }
 
 // localNames maps source-level local variable names to candidate SSA values.
+// addrLocals maps names of address-taken locals (escaping allocs) to their Alloc.
+func addrLocals(fn *ssa.Function) map[string]*ssa.Alloc {
+	out := map[string]*ssa.Alloc{}
+	for _, b := range fn.Blocks {
+		for _, in := range b.Instrs {
+			if d, ok := in.(*ssa.DebugRef); ok && d.IsAddr {
+				if a, ok := d.X.(*ssa.Alloc); ok {
+					if obj := d.Object(); obj != nil {
+						if _, ok := obj.(*types.Var); ok {
+							out[obj.Name()] = a
+						}
+					}
+				}
+			}
+		}
+	}
+	return out
+}
+
+func (g *gen) bindAddrLocals(fr *frame, st *State, at *ssa.BasicBlock, out map[string]binding) {
+	for name, a := range addrLocals(fr.fn) {
+		if _, has := out[name]; has {
+			continue
+		}
+		ref, ok := fr.vals[a]
+		if !ok {
+			continue
+		}
+		if a.Block() != at && !a.Block().Dominates(at) {
+			continue
+		}
+		el := a.Type().Underlying().(*types.Pointer).Elem()
+		out[name] = binding{g.loadAt(st, ref.(string), el), xtOf(el)}
+	}
+}
+
 func localNames(fn *ssa.Function) map[string][]ssa.Value {
 	out := map[string][]ssa.Value{}
 	add := func(name string, v ssa.Value) {
@@ -57,8 +93,9 @@ func definingBlock(v ssa.Value) *ssa.BasicBlock {
 }
 
 // loopEnvVars resolves source names visible in a loop invariant at header h.
-func (g *gen) loopEnvVars(fr *frame, h *ssa.BasicBlock, phiVals map[*ssa.Phi]Val) map[string]binding {
+func (g *gen) loopEnvVars(fr *frame, h *ssa.BasicBlock, phiVals map[*ssa.Phi]Val, st *State) map[string]binding {
 	out := map[string]binding{}
+	defer g.bindAddrLocals(fr, st, h, out)
 	names := localNames(fr.fn)
 	body := fr.li.body[h]
 	for name, cands := range names {
@@ -119,12 +156,77 @@ func (g *gen) loopEnvVars(fr *frame, h *ssa.BasicBlock, phiVals map[*ssa.Phi]Val
 			out[name] = binding{g.val(fr, pick), xtOf(pick.Type())}
 		}
 	}
-	// hidden range index of this header
+	// hidden range index of this header, and of the enclosing loops ($idx<ordinal>)
 	for _, in := range h.Instrs {
 		if p, ok := in.(*ssa.Phi); ok && p.Comment == "rangeindex" {
 			if v, ok := phiVals[p]; ok {
 				out["$idx"] = binding{v, xtInt}
+				out[fmt.Sprintf("$idx%d", fr.li.headers[h])] = binding{v, xtInt}
 			}
+		}
+	}
+	for oh, obody := range fr.li.body {
+		if oh == h || !obody[h] {
+			continue
+		}
+		for _, in := range oh.Instrs {
+			if p, ok := in.(*ssa.Phi); ok && p.Comment == "rangeindex" {
+				if v, ok := fr.vals[p]; ok {
+					out[fmt.Sprintf("$idx%d", fr.li.headers[oh])] = binding{v, xtInt}
+				}
+			}
+		}
+	}
+	return out
+}
+
+// localEnvAt resolves source-level local names visible at the start of instruction idx of block b:
+// the closest dominating definition of each name.
+func (g *gen) localEnvAt(fr *frame, b *ssa.BasicBlock, idx int, st *State) map[string]binding {
+	out := map[string]binding{}
+	defer g.bindAddrLocals(fr, st, b, out)
+	for name, cands := range localNames(fr.fn) {
+		var best ssa.Value
+		for _, c := range cands {
+			if _, isConst := c.(*ssa.Const); isConst {
+				continue
+			}
+			db := definingBlock(c)
+			okc := false
+			if db == nil {
+				okc = true
+			} else if db == b {
+				okc = instrIndex(c) < idx
+			} else {
+				okc = db.Dominates(b)
+			}
+			if !okc {
+				continue
+			}
+			if _, has := fr.vals[c]; !has {
+				if _, isParam := c.(*ssa.Parameter); !isParam {
+					continue
+				}
+			}
+			if best == nil {
+				best = c
+				continue
+			}
+			bb, cb := definingBlock(best), db
+			switch {
+			case bb == nil:
+				best = c
+			case cb == nil:
+			case bb == cb:
+				if instrIndex(c) > instrIndex(best) {
+					best = c
+				}
+			case bb.Dominates(cb):
+				best = c
+			}
+		}
+		if best != nil {
+			out[name] = binding{g.val(fr, best), xtOf(best.Type())}
 		}
 	}
 	return out
@@ -269,7 +371,7 @@ func (g *gen) execFunc(fr *frame, entry *node, st0 *State) []exitRec {
 			hdr[b] = &hdrRec{st: st.clone(), phiVals: pv, before: before}
 			if ls != nil && ls.HasModifies {
 				e := g.topEnv(before, &State{m: map[string]string{}}, nil)
-				for k, v := range g.loopEnvVars(fr, b, pv) {
+				for k, v := range g.loopEnvVars(fr, b, pv, e.st) {
 					e.vars[k] = v
 				}
 				excl, whole := g.loopModifiesExcl(e, ls, ord)
@@ -291,7 +393,7 @@ func (g *gen) execFunc(fr *frame, entry *node, st0 *State) []exitRec {
 			}
 			if ls != nil {
 				e := g.topEnv(st, &State{m: map[string]string{}}, nil)
-				for k, v := range g.loopEnvVars(fr, b, pv) {
+				for k, v := range g.loopEnvVars(fr, b, pv, e.st) {
 					e.vars[k] = v
 				}
 				for _, c := range ls.Invs {
@@ -334,7 +436,7 @@ func (g *gen) execFunc(fr *frame, entry *node, st0 *State) []exitRec {
 				for _, r := range x.Results {
 					rs = append(rs, g.val(fr, r))
 				}
-				exits = append(exits, exitRec{cur, st, rs})
+				exits = append(exits, exitRec{n: cur, st: st, results: rs, block: b, idx: instrIndexOf(b, ins)})
 				terminated = true
 			case *ssa.Panic:
 				if fr.inDefer {
@@ -349,6 +451,15 @@ func (g *gen) execFunc(fr *frame, entry *node, st0 *State) []exitRec {
 		}
 	}
 	return exits
+}
+
+func instrIndexOf(b *ssa.BasicBlock, in ssa.Instruction) int {
+	for i, x := range b.Instrs {
+		if x == in {
+			return i
+		}
+	}
+	return len(b.Instrs)
 }
 
 func firstPos(b *ssa.BasicBlock) token.Pos {
@@ -393,7 +504,7 @@ func (g *gen) assertInvariants(fr *frame, n *node, st *State, h *ssa.BasicBlock,
 		return
 	}
 	e := g.topEnv(st, &State{m: map[string]string{}}, nil)
-	for k, v := range g.loopEnvVars(fr, h, pv) {
+	for k, v := range g.loopEnvVars(fr, h, pv, st) {
 		e.vars[k] = v
 	}
 	for _, c := range ls.Invs {
@@ -453,6 +564,19 @@ func (g *gen) loopModifiesExcl(e *env, ls *LoopSpec, ord int) (map[string][]stri
 			} else {
 				g.errorf("%s: loop %d modifies %s: cannot resolve type", g.name, ord, ml.Src)
 			}
+			continue
+		}
+		if strings.Contains(ml.All, "::") {
+			parts := strings.SplitN(ml.All, "::", 2)
+			xt, err := g.resolveType(&TypeExpr{Kind: "name", Name: strings.TrimSpace(parts[0])}, g.fs.PkgPath, g.fs.Imports)
+			if err == nil && xt.T != nil {
+				if name, srt, ok := g.fieldVar(xt.T, strings.TrimSpace(parts[1])); ok {
+					g.noteVar(name, srt)
+					whole[name] = true
+					continue
+				}
+			}
+			g.errorf("%s: loop %d modifies %s: cannot resolve", g.name, ord, ml.Src)
 			continue
 		}
 		if ml.All == "elems" {
